@@ -619,6 +619,71 @@ fn hostile_reply_part(r: &mut Report, a: &Args) {
     }
 }
 
+/// Datagrams that meet an aged routing table. A first node learns 20..24 peers of one bucket from their
+/// find_node requests within a few seconds; then they all go silent. Fifteen minutes later every one of them is
+/// stale at once, and for up to five minutes - until the next maintenance round sweeps them - the bucket is full
+/// of stale entries. In that window (and around its edges) requests from 1..5 new ids of that bucket arrive,
+/// then one more ping: the node must have survived all of them and answer it.
+fn aged_bucket_scenario(r: &mut Report, seed: u64) {
+    r.eval();
+    let mut rng = Rng::new(seed);
+    let w = World::with_cfg(seed, NetCfg { lat_min: MS, lat_max: 20 * MS, random_ties: true }, TraceLevel::Off);
+    let x = w.spawn(NodeSpec::server(Ipv4Addr::new(32, 0, 0, 1), &[])).expect("x");
+    let xid = w.block_on(x.adht.info(), 3 * SEC).map(|i| *i.id().as_bytes()).unwrap_or([0; 20]);
+    let fill = 20 + rng.usize(5);
+    let newcomers = 1 + rng.usize(5);
+    // (the peers appear shortly after one of the node's 5-minute maintenance rounds, so that all of them turn stale
+    // between two rounds: at 15 minutes + this offset, well before the round that would sweep them)
+    let fill_at = 300 + *rng.pick(&[1u64, 5, 20, 60, 150, 280]) + rng.below(10);
+    let at = fill_at + 14 * 60 + 30 + rng.below(6 * 60);
+    let case = json!({"class":"aged-bucket","seed":seed.to_string(),"silent_peers":fill,"newcomers":newcomers,"peers_appear_after_s":fill_at,"newcomers_arrive_after_s":at});
+    let in_bucket = |rng: &mut Rng| -> [u8; 20] {
+        let mut id: [u8; 20] = rng.array();
+        id[0] = (id[0] & 0x7f) | (!xid[0] & 0x80);
+        id
+    };
+    let t0 = w.now();
+    w.run_to(t0 + fill_at * SEC);
+    for i in 0..fill {
+        let s = w.raw(SocketAddrV4::new(Ipv4Addr::new(32, 1 + (i / 200) as u8, (i % 200) as u8, 9), 6881));
+        let id = in_bucket(&mut rng);
+        w.raw_send(s, &q_find_node(&[0, i as u8], &id, &rng.array(), false, Some(&VERSION_RS6)), x.addr);
+        w.run_for(rng.below(300) * MS);
+    }
+    if std::env::var("MLV_DEBUG").is_ok() {
+        if let Some(sn) = super::net::snapshot(&w, &x) {
+            eprintln!("after fill of {fill}: table {} nodes", sn.table.nodes.len());
+        }
+    }
+    w.run_to(t0 + at * SEC);
+    if std::env::var("MLV_DEBUG").is_ok() {
+        if let Some(sn) = super::net::snapshot(&w, &x) {
+            eprintln!("at {at}s: table {} nodes, ages {:?}", sn.table.nodes.len(), sn.table.nodes.iter().map(|n| n.2.as_secs()).collect::<Vec<_>>());
+        }
+    }
+    for i in 0..newcomers {
+        let s = w.raw(SocketAddrV4::new(Ipv4Addr::new(33, 1, i as u8, 9), 6881));
+        let id = in_bucket(&mut rng);
+        let bytes = if rng.bool() { q_find_node(&[1, i as u8], &id, &rng.array(), false, Some(&VERSION_RS6)) } else { q_get_peers(&[1, i as u8], &id, &rng.array(), false) };
+        w.raw_send(s, &bytes, x.addr);
+        w.run_for(rng.below(30) * SEC);
+    }
+    r.count("aged_bucket_scenarios");
+    r.nontrivial(mix(seed, at));
+    let probe = w.raw(SocketAddrV4::new(Ipv4Addr::new(67, 7, 7, 7), 777));
+    w.raw_send(probe, &q_ping(&[9, 9], &[1; 20]), x.addr);
+    let answered = w.run_until(3 * SEC, |w| w.raw_pending(probe) > 0);
+    if let Some(p) = w.closed(x.sock) {
+        let loc = last_panic_loc();
+        r.violation(&format!("aged-table/actor-panic/{}", loc.replace("/repo/", "")), "a request from a new node id killed a node whose bucket held only stale entries", case.clone(), json!({"panicked": p}));
+    } else if !answered {
+        r.violation("aged-table/no-answer-afterwards", "the node no longer answers a ping after requests from new node ids met a bucket of stale entries", case.clone(), json!({}));
+    }
+    drop(x);
+    w.shutdown();
+    let _ = crate::take_panics();
+}
+
 pub fn run(a: &Args) -> Report {
     if let Some(path) = &a.replay {
         let mut r = Report::new("C05");
@@ -629,6 +694,7 @@ pub fn run(a: &Args) -> Report {
                 let call = CALLS.iter().find(|x| format!("{x:?}") == c["call"].as_str().unwrap_or("")).copied().unwrap_or(Call::PutImmutable);
                 hostile_reply_scenario(&mut r, c["seed"].as_str().and_then(|s| s.parse().ok()).unwrap_or(1), call, c["sync"].as_bool().unwrap_or(false), c["put_mode"].as_u64().unwrap_or(0) as usize);
             }
+            Some("aged-bucket") => aged_bucket_scenario(&mut r, c["seed"].as_str().and_then(|s| s.parse().ok()).unwrap_or(1)),
             Some("live-inject") => {
                 // fire the recorded batch one datagram at a time to name the culprit
                 let mut rng = Rng::new(1);
@@ -667,6 +733,11 @@ pub fn run(a: &Args) -> Report {
     live_inject_part(&mut total, a);
     authorised_writes_part(&mut total, a);
     hostile_reply_part(&mut total, a);
+    let mut rng = Rng::new(mix(a.seed, 0xa6ed + a.shard));
+    for _ in 0..(if a.quick() { 160 } else { 3200 }) / a.nshards.max(1) {
+        let seed = rng.u64();
+        super::guarded(&mut total, json!({"class":"aged-bucket","seed":seed.to_string()}), |r| aged_bucket_scenario(r, seed));
+    }
     total
 }
 
